@@ -110,6 +110,32 @@ def check_message(m, enc, acc, w, dbx=None, d=None):
         acc.violation(key, f"{w['definition']}: {e1} vs {e2}", w)
 
 
+ROUTES = ("plain", "actisense", "usb_bytearray", "plain", "usb_bytes", "ebyte_bytearray", "yd", "plain")
+
+
+def decode_via(dec, route, prio, d, pb: bytes, k):
+    """The same payload through one of the decoder's entry points, handing over the argument types the clients hand
+    over (the Waveshare client passes a bytearray slice of its buffer)."""
+    pdu1 = ((d.pgn >> 8) & 0xFF) < 240
+    if route == "plain" or (d.type not in ("Single", "Fast")) or (d.type == "Single" and len(pb) > 8) or len(pb) > 223:
+        return dec.decode_basic_string(wire.plain_line(prio, d.pgn, 9, 255, pb), already_combined=True)
+    if route == "actisense":
+        return dec.decode_actisense_string(wire.actisense_line(prio, d.pgn, 9, 255, pb))
+    ident = wire.can_id(prio, d.pgn, 9, 255)
+    frames = [pb] if d.type == "Single" else wire.fast_frames(pb, k % 8, 0xFF)
+    r = None
+    for f in frames:
+        if route == "usb_bytes":
+            r = dec.decode_usb(wire.usb_frame(ident, f))
+        elif route == "usb_bytearray":
+            r = dec.decode_usb(bytearray(wire.usb_frame(ident, f)))
+        elif route == "ebyte_bytearray":
+            r = dec.decode_tcp(bytearray(wire.ebyte_frame(ident, f)))
+        else:
+            r = dec.decode_yacht_devices_string(wire.yd_line(ident, f).strip())
+    return r
+
+
 def run_json(spec, acc):
     dbx = refdb.db()
     rng = gen.rng_for(spec["seed"], ID, spec["name"])
@@ -126,12 +152,13 @@ def run_json(spec, acc):
             cases = list(variable_cases(dbx, d, rng, 12 if quick else 2000))
         for k, (label, payload, nb, _) in enumerate(cases):
             dec = dec_ident if k % 3 == 0 else dec_plain
-            line = wire.plain_line(rng.randrange(8), d.pgn, 9, 255, payload.to_bytes(nb, "little"))
+            route = ROUTES[(k + d.index) % len(ROUTES)]
             try:
-                m = dec.decode_basic_string(line, already_combined=True)
+                m = decode_via(dec, route, rng.randrange(8), d, payload.to_bytes(nb, "little"), k)
             except Exception:  # noqa: BLE001
                 acc.case(None)
                 continue
+            acc.cover("input_routes", route)
             if m is None:
                 acc.case(None)
                 continue
